@@ -130,6 +130,23 @@ def handle (st : St) (args : List String) (impl : String) : St × Verdict :=
     | some hb, some ho, some hr, some hk, some c, some o, some k =>
       ({ st with dsg := some (Dsg.State.new hb ho hr hk c o k) }, cmpModel "ok" impl)
     | _, _, _, _, _, _, _ => (st, .unknown)
+  -- the desegmenter made for an archive header with `outs` output leaves: the model computes the
+  -- chunk count itself (`calc_bitmap_mmr_sizes`)
+  | ["dsg", "newh", hb, ho, hr, hk, outs, kers] =>
+    match nat? hb, nat? ho, nat? hr, nat? hk, nat? outs, nat? kers with
+    | some hb, some ho, some hr, some hk, some o, some k =>
+      ({ st with dsg := some (Dsg.State.ofHeader hb ho hr hk o k) }, cmpModel "ok" impl)
+    | _, _, _, _, _, _ => (st, .unknown)
+  -- `expected_bitmap_mmr_size()` and its leaf count: ⌈n/1024⌉ chunks, the MMR size of that many leaves
+  | ["bmsize", outs] =>
+    match nat? outs with
+    | some o => (st, cmpSpec s!"{Dsg.expectedChunks o} {Dsg.expectedBitmapSize o}" impl)
+    | none => (st, .unknown)
+  -- chunks of the accumulator `BitmapAccumulator::init` builds over a leaf set
+  | ["accchunks", size, idxs] =>
+    match nat? size, parseNatList idxs with
+    | some n, some l => (st, cmpModel (toString (Dsg.accChunkCount l n)) impl)
+    | _, _ => (st, .unknown)
   | ["dsg", "add", tree, h, idx, acc] =>
     match st.dsg, nat? tree, nat? h, nat? idx, nat? acc with
     | some d, some tree, some h, some idx, some acc =>
